@@ -366,10 +366,15 @@ impl<F: NttFriendlyFieldElement> Type for Average<F> {
     fn decode_result(&self, data: &[F], num_measurements: usize) -> Result<f64, FlpError> {
         // Compute the average from the aggregated sum.
         let sum = self.summer.decode_result(data, num_measurements)?;
-        let data: u64 = sum
+        // The sum may not fit in 64 bits: convert its 64 most significant bits and scale back.
+        let shift = match sum.checked_ilog2() {
+            Some(log) if log >= 64 => (log - 63) as usize,
+            _ => 0,
+        };
+        let data: u64 = (sum >> shift)
             .try_into()
             .map_err(|err| FlpError::Decode(format!("failed to convert {sum:?} to u64: {err}",)))?;
-        let result = (data as f64) / (num_measurements as f64);
+        let result = (data as f64) * 2f64.powi(shift as i32) / (num_measurements as f64);
         Ok(result)
     }
 
